@@ -12,7 +12,7 @@ import Tahoe.Mutable.ServerMap
 | "no publisher overwrites a share that changed after its survey without noticing … a publisher that meets a different version reports an uncoordinated-write error" | `surprise_reported` (failed test vector or foreign surprise share at any point ⇒ `UncoordinatedWriteError`, whatever happens before and after); error class at the bookkeeping level: C47 `refused_or_surprising_write_is_ucw` |
 | "In every interleaving where no writer stops midway and (writers + 1) × k ≤ N, at least one version (old or new) remains recoverable" | `some_version_recoverable` ((old versions + W)·k ≤ N, every share number present or attempted), `some_version_recoverable_one_old` (the statement's form) |
 | MDMF multi-write guarded by its own checkstring | in the model (`seen` := own version after a successful write; `view_is_survey_or_own_write`); the code base sends one request per share, so only the single-write case is exercised by correspondence |
-| retry with backoff (`MutableFileVersion._modify_and_retry`), i.e. that concurrent `modify()` calls converge without losing a reported edit | NOT a theorem: false for the code as it is — `modify_convergence_counterexample` (negation witness on the model; open finding in known_findings.d/C12.json); the stale-pinned-version defect of the retry loop was fixed (fixes/C12-modify-retry-stale-version.diff, committed) and is monitored on the grid |
+| retry with backoff (`MutableFileVersion._modify_and_retry`), i.e. that concurrent `modify()` calls converge without losing a reported edit | NOT a theorem: false for the code as it is — `modify_convergence_counterexample` (negation witness on the model; open finding in known_findings.d/C12.json); the stale-pinned-version defect of the retry loop is repaired in /repo (3e3100d) and is monitored on the grid |
 | test vector a new-share write carries is "must not exist" | `new_share_write_must_not_exist` (a slot the writer never surveyed nor wrote: lands only if still empty, otherwise refused and reported), tied by the test-vector kind of every recorded write vs the model's expectation; the wire form of that vector (`(0, 1, eq, b"")` through `storage_client._StorageServer`, and the server's verdict on it) is modelled and proved in C47 `wire_testv_guards` and tied by C47's `testv` cases |
 -/
 namespace Tahoe.C12
